@@ -107,12 +107,12 @@ def impl(case):
     # rates: per label pair, mean and sample standard deviation over the time parts of (jumps of that pair in the part) / (atoms x part duration)
     npart = 2
     try:
-        df = j.rates(npart)
-        out['rates'] = {f'{a}>{b}': [float(r['rates']), float(r['std'])] for (a, b), r in df.iterrows()}
         pc = []
         for part in tr.split(npart):
             c = Jumps(part, minimal_residence=case['mr']).counter()
             pc.append({f'{a}>{b}': int(v) for (a, b), v in c.items()})
+        df = j.rates(npart)      # every part has jumps under the settings of the whole, so rates() has no reason to reject
+        out['rates'] = {f'{a}>{b}': [float(r['rates']), float(r['std'])] for (a, b), r in df.iterrows()}
         out['rates_parts'] = pc
         out['total_time'] = float(traj.total_time)
     except ValueError as e:
